@@ -168,6 +168,7 @@ func runDecomp(c DecompCase, rec *h.Rec) error {
 		dec := ring.NewDecomposer(rQ, rP)
 		pIn := rQ.AtLevel(c.LevelQ).NewPoly()
 		setPoly(pIn, x, Q)
+		inBefore := *pIn.CopyNew()
 		for i, g := range groups {
 			outQ := rQ.NewPoly()
 			dirty(outQ, c.Chain.Q, c.Dirt+uint64(i))
@@ -179,6 +180,9 @@ func runDecomp(c DecompCase, rec *h.Rec) error {
 			// called exactly as rlwe.Evaluator does: nbPi = max(levelP+1, 1) (one prime per digit when there is no P;
 			// before fix b02a278 the evaluator passed 0 there and every digit decomposed limb 0)
 			dec.DecomposeAndSplit(c.LevelQ, c.LevelP, nbPi, i, pIn, outQ, outP)
+			if !pIn.Equal(&inBefore) {
+				return h.Failf("C02:DecomposeAndSplit:input-modified", "levelQ=%d levelP=%d digit %d: the decomposed polynomial was modified", c.LevelQ, c.LevelP, i)
+			}
 			lq, _ := limbs(outQ, Q)
 			if g.hi-g.lo > 1 {
 				// limbs of the group itself are not written by DecomposeAndSplit (DecomposeSingleNTT copies the input there)
@@ -213,7 +217,11 @@ func runDecomp(c DecompCase, rec *h.Rec) error {
 			dirty(eval.BuffDecompQP[i].Q, c.Chain.Q, c.Dirt+uint64(i))
 			dirty(eval.BuffDecompQP[i].P, c.Chain.P, c.Dirt+uint64(i)+100)
 		}
+		inBefore := *pIn.CopyNew()
 		eval.DecomposeNTT(c.LevelQ, c.LevelP, c.LevelP+1, pIn, c.IsNTT, eval.BuffDecompQP)
+		if !pIn.Equal(&inBefore) {
+			return h.Failf("C02:DecomposeNTT:input-modified", "levelQ=%d levelP=%d isNTT=%v: the decomposed polynomial (a ciphertext component the caller keeps using) was modified", c.LevelQ, c.LevelP, c.IsNTT)
+		}
 		for i := range groups {
 			d := ringqp.Poly{Q: ring.Poly{Coeffs: eval.BuffDecompQP[i].Q.Coeffs[:c.LevelQ+1]}, P: ring.Poly{Coeffs: eval.BuffDecompQP[i].P.Coeffs[:c.LevelP+1]}}
 			tmp := ringQP.NewPoly()
